@@ -646,7 +646,7 @@ fn txn_graph(rep: &Report, max_depth: usize) {
 pub fn run(opts: &Opts) -> i32 {
     let rep = Report::new("C16", "model_checking", opts);
     rep.set("exhaustive", true);
-    rep.set("rule", "every script of exactly d StorageTxn calls over an alphabet of 24 (thorough 38) calls (tasks, operations, base version, working set, sync_complete, is_empty, commit, abandon, close+re-open) with 2 uuids and non-ASCII/empty strings, executed in lock step on InMemoryStorage and SqliteStorage; every return value compared (collections as sorted sets, errors as 'is error'), full observation compared after every transaction end and after close + re-open; the graph of storage states reachable by sequences of up to 4 (thorough 6) whole transactions from an alphabet of 16 (create/update/delete with and without the matching operation, sync_complete with and without a new base version, working-set edits, undo-style removals, an abandoned transaction, close+re-open), states identified by their full observation; the same after a prefix of 25 operations and 12 working-set entries; the same on databases created by raw SQL under schemas 0.8, 0.9, (0,1), (0,2) with pre-loaded content; every mutator and commit on a read-only handle; non-trivial = scripts that abandon a transaction containing writes after an earlier committed write, or re-open after a committed write");
+    rep.set("rule", "every script of exactly d StorageTxn calls over an alphabet of 24 (thorough 38) calls (tasks, operations, base version, working set, sync_complete, is_empty, commit, abandon, close+re-open) with 2 uuids and non-ASCII/empty strings, executed in lock step on InMemoryStorage and SqliteStorage; every return value compared (collections as sorted sets, errors as 'is error'), full observation compared after every transaction end and after close + re-open; the graph of storage states reachable by sequences of up to 4 (thorough 6) whole transactions from an alphabet of 16 (create/update/delete with and without the matching operation, sync_complete with and without a new base version, working-set edits, undo-style removals, an abandoned transaction, close+re-open), states identified by their full observation; the same after a prefix of 25 operations and 12 working-set entries; seven working-set entries with every subset of the positions blanked; the same on databases created by raw SQL under schemas 0.8, 0.9, (0,1), (0,2) with pre-loaded content; every mutator and commit on a read-only handle; non-trivial = scripts that abandon a transaction containing writes after an earlier committed write, or re-open after a committed write");
     rep.assume("contract restrictions: set_working_set_item only with 1 <= index < current length; no call after commit and no second commit in one transaction; error messages are not compared");
     let q = opts.tier == Tier::Quick;
     run_scripts(&rep, "reduced-alphabet", scripts(&alphabet(false), if q { 3 } else { 4 }));
@@ -667,6 +667,25 @@ pub fn run(opts: &Opts) -> i32 {
     many.push(Call::Commit);
     let tails = scripts(&alphabet(true), if q { 1 } else { 2 });
     run_scripts(&rep, "many-rows-prefix", tails.into_iter().map(|t| many.iter().cloned().chain(t).chain([Call::Commit, Call::Reopen, Call::Unsynced, Call::GetWs, Call::TaskOps(1)]).collect()).collect());
+    // working-set shapes: seven entries, then every subset of the positions blanked (runs of blanks of
+    // every length at the start, in the middle, at the end), read back inside the transaction, after
+    // commit and after re-open, and then appended to
+    let mut shapes = vec![];
+    for mask in 0u32..128 {
+        let mut sc = vec![Call::CreateTask(1), Call::CreateTask(2)];
+        for k in 0..7u8 {
+            sc.push(Call::AddWs(1 + k % 2));
+        }
+        sc.push(Call::Commit);
+        for i in 0..7u8 {
+            if mask & (1 << i) != 0 {
+                sc.push(Call::SetWs(i + 1, 0));
+            }
+        }
+        sc.extend([Call::GetWs, Call::Pending, Call::Commit, Call::GetWs, Call::Reopen, Call::GetWs, Call::Pending, Call::AddWs(2), Call::GetWs, Call::Commit]);
+        shapes.push(sc);
+    }
+    run_scripts(&rep, "working-set-shapes", shapes);
     txn_graph(&rep, if q { 4 } else { 6 });
     legacy(&rep);
     read_only(&rep);
